@@ -191,6 +191,44 @@ theorem once_per_block (env : Env σ) (st : St) (evs : List (Ev σ)) :
 
 /-! ## 4. The penalty -/
 
+/-- The penalty of one conviction, for every well-formed validator record (C08's invariants: Stake > 0 is the sum of
+SelfStake and the delegations' stakes, parts non-negative, delegators distinct), every withdraw queue and every
+parameter table: the total is between 0 and ⌊Token · PenaltyFractionForDoubleSign / 100⌋; exactly the total is
+credited to PenaltyTo; the total is exactly what left the unfinished withdraw records plus what left the validator's
+Token; and the Token decrease is exactly the decrease of SelfToken plus the decrease of the delegations' tokens. -/
+theorem penalty_bound (env : Env σ) (st : St) (v : Val) (hwf : ValWF v) (htok : 0 ≤ v.token) :
+    0 ≤ (penaltyOf env st v).total ∧
+    (penaltyOf env st v).total ≤ v.token * (env.cfg.frac : Int) / 100 ∧
+    (penalise env st v).penaltyTo = st.penaltyTo + (penaltyOf env st v).total ∧
+    (penaltyOf env st v).total = (sumFinal st.queue - sumFinal (penaltyOf env st v).queue) + (v.token - (penaltyOf env st v).newVal.token) ∧
+    v.token - (penaltyOf env st v).newVal.token =
+      (v.selfToken - (penaltyOf env st v).newVal.selfToken) + (sumDelegToken v.delegs - sumDelegToken (penaltyOf env st v).newVal.delegs) := by
+  have hamt : 0 ≤ v.token * (env.cfg.frac : Int) / 100 := by
+    have : 0 ≤ v.token * (env.cfg.frac : Int) := Int.mul_nonneg htok (by omega)
+    omega
+  refine ⟨?_, ?_, rfl, ?_, ?_⟩ <;> simp only [penaltyOf, doPenalize] <;> split
+  · exact (takePenalty_le _ _ _ _ hamt hwf).1
+  · simp only; omega
+  · exact (takePenalty_le _ _ _ _ hamt hwf).2
+  · simp only; omega
+  · exact (takePenalty_conservation _ _ _ _).1
+  · simp only; omega
+  · exact (takePenalty_conservation _ _ _ _).2
+  · simp only; omega
+
+/-- conservation alone needs no hypothesis on the record (only a positive penalty amount): nothing is created or lost -/
+theorem penalty_conservation (unit : Int) (q : List WRec) (v : Val) (amount : Int) :
+    (takePenalty unit q v amount).total = (sumFinal q - sumFinal (takePenalty unit q v amount).queue) + (v.token - (takePenalty unit q v amount).newVal.token) ∧
+    v.token - (takePenalty unit q v amount).newVal.token =
+      (v.selfToken - (takePenalty unit q v amount).newVal.selfToken) +
+      (sumDelegToken v.delegs - sumDelegToken (takePenalty unit q v amount).newVal.delegs) :=
+  takePenalty_conservation unit q v amount
+
+/-- `ValWF` is satisfiable by a record with delegations -/
+example : ValWF { addr := 1, status := 1, expelled := false, expelExpired := 0, token := 1700, stake := 170, selfToken := 1000, selfStake := 100, risk := 3000,
+                  delegs := [⟨208, 41, 410⟩, ⟨209, 29, 290⟩] } :=
+  ⟨by decide, by decide, by decide, by decide, by decide, by decide⟩
+
 /-- The guard of the F-C05c repair, stated: with `Stake = 0` (which made the Go code panic) nothing is prorated:
 every delegation's share is 0 and the validator's own share is the whole amount. -/
 theorem takePenalty_total_guard (v : Val) (amount : Int) (h0 : v.stake = 0) :
